@@ -39,4 +39,8 @@ func c01Round4(c *Ctx) {
 			c.Ob("C01-D11", "sio.Manager.connect/resetParser-only-when-down", r.Pos(), ok, fmt.Sprintf("resetParser is called under %v: not behind the test that the manager is not connected", GuardTerms(r.Instr)))
 		}
 	}
+
+	c.Rule("C01-D12", "an event that arrives around CONNECT is not stranded (F37): in clientSocket.onEvent the append to receiveBuffer is decided by a read of the socket state made inside the critical section of "+
+		"receiveBufferMu that contains the append; onConnect sets the connected state before it calls emitBuffered; emitBuffered clears the buffer under the same mutex", 3)
+	bufferDecisionAtomic(c, "C01-D12")
 }
